@@ -225,6 +225,22 @@ class DateTimePairs(Sub):
             rc = interval_components(a - b)
             exp = tuple(-v for v in c)
             req(rc == exp, "reversed interval does not report the negated components", forward=c, reversed=rc)
+        # every way of obtaining the interval of the same two values reports the same components: the factory, diff(), and the operators with
+        # a NATIVE datetime on either side (the native operand is what the compiled helper sees as a foreign subclass / exact type)
+        if kind != "date":
+            na = D.datetime(*T.fields(a), tzinfo=a.tzinfo, fold=a.fold)
+            nb = D.datetime(*T.fields(b), tzinfo=b.tzinfo, fold=b.fold)
+            neg = tuple(-v for v in c)
+            forms = [("interval(a, b)", lambda: pendulum.interval(a, b), c), ("a.diff(b, False)", lambda: a.diff(b, False), c), ("b.diff(a, False)", lambda: b.diff(a, False), neg),
+                     ("b - native(a)", lambda: b - na, c), ("native(b) - a", lambda: nb - a, c), ("a - native(b)", lambda: a - nb, neg), ("native(a) - b", lambda: na - b, neg),
+                     ("interval(native(a), native(b))", lambda: pendulum.interval(na, nb), c), ("interval(native(b), native(a))", lambda: pendulum.interval(nb, na), neg),
+                     ("interval(b, a, absolute=True)", lambda: pendulum.interval(b, a, absolute=True), c)]
+            for nm, f, want in forms:
+                iv3 = f()
+                req(isinstance(iv3, Interval), f"{nm} is not an Interval", got=type(iv3).__name__)
+                got = interval_components(iv3)
+                req(got == (want if span > 0 else c), f"{nm} does not report the components of b - a{' negated' if want is neg else ''}", a=str(a), b=str(b), got=got,
+                    expected=want)
         return borrow, kind
 
 
